@@ -56,7 +56,8 @@ class Spheres(Scatterers):
     '''
 
     def __init__(self, scatterers, warn=True):
-        scatterers = ensure_listlike(scatterers)
+        # (a list: a generator would be used up by the check below)
+        scatterers = list(ensure_listlike(scatterers))
         self.warn = warn
         for s in ensure_listlike(scatterers):
             if not isinstance(s, Sphere):
